@@ -14,7 +14,7 @@ import sys
 import tempfile
 from concurrent.futures import ThreadPoolExecutor
 
-VERIF = "/verif"
+VERIF = os.environ.get("VERIF_DIR", "/verif")
 
 
 def sh(cmd, **kw):
